@@ -49,7 +49,7 @@ func c13paths() []c13path {
 				for q := int32(0); q <= 2; q++ {
 					for _, r := range []bool{false, true} {
 						for _, mp := range []string{"", "m1"} {
-							for _, c := range []string{"disconnect", "drop", "keepalive", "protocol-error", "leave", "disconnect-then-leave-reordered-gossip", "leave-detected-500ms-apart"} {
+							for _, c := range []string{"disconnect", "drop", "keepalive", "protocol-error", "leave", "disconnect-then-leave-reordered-gossip", "leave-detected-500ms-apart", "disconnect-removal-lost-fullstate-then-leave"} {
 								if strings.Contains(c, "leave") && (n == 1 || (len(ws) == 1 && ws[0] == 1)) {
 									continue
 								}
@@ -130,6 +130,21 @@ func TestC13Wills(t *testing.T) {
 				case "protocol-error":
 					d.SendRaw(EncodeConnect(&packet.Connect{Header: &packet.Header{}, ClientId: []byte("dying"), KeepaliveTimer: 2, Clean: true}))
 				case "leave":
+					w.Leave(1)
+				case "disconnect-removal-lost-fullstate-then-leave":
+					// the record is known everywhere; the removal after the clean DISCONNECT is lost as gossip and only
+					// travels with the periodic full-state exchange
+					w.Step()
+					w.GossipHold = func(int) bool { return true }
+					d.Disconnect()
+					w.Step()
+					w.DrainGossip()
+					w.Pending = nil // lost
+					w.GossipHold = nil
+					for n := 2; n <= p.Nodes; n++ {
+						w.FullState(1, n)
+					}
+					w.Step()
 					w.Leave(1)
 				case "leave-detected-500ms-apart":
 					w.LeaveStaggered(1, 500*time.Millisecond)
